@@ -10,6 +10,10 @@ op  = ["bind", m, prefix|None, ns, override, replace]   Graph.bind / NamespaceMa
       ["parse", m, [[prefix, ns]…]]      Turtle document with @prefix lines
       ["parsexml", m, [[prefix|None, ns]…]]  RDF/XML document with xmlns attributes
       ["ser", m, s, p, o]                serialize(format="turtle") of a graph holding that triple
+      ["serdoc", m, fmt, [[s, p, o, kind]…]]  serialize(format=turtle|n3) of a fresh graph (same store, same
+                                         manager) holding these triples (kind "u" IRI / "l" plain literal); the
+                                         OUTPUT is checked (prefix table, re-parse) and its @prefix table is
+                                         compared with the model's; the manager is reset() afterwards
 m = manager index: 0 = the graph's (a Dataset's, shared with its named graphs) manager,
     1 = a second manager on the same store (another Graph over the store; a Dataset's default graph).
 After every op: op result, sorted namespaces(), store.namespace / store.prefix of all known keys.
@@ -17,11 +21,12 @@ Property oracle (independent of Lean): the three clauses evaluated on the implem
 """
 import io
 import logging
+import re
 import warnings
 
 import core  # noqa: F401
 import c17_tables
-from rdflib import Dataset, Graph, Namespace, URIRef
+from rdflib import Dataset, Graph, Literal, Namespace, URIRef
 from rdflib.namespace import NamespaceManager
 from rdflib.plugins.stores.memory import Memory, SimpleMemory
 import rdflib.namespace as _N
@@ -37,7 +42,8 @@ CASES = {"quick": 2500, "thorough": 60000, "search": 12000}
 TABLES = c17_tables.tables_text
 RULE = ("random histories (3-18 ops) of bind (override x replace, None/empty/underscore/numbered prefixes, nested and "
         "overlapping namespaces), direct store.bind, qname/curie/compute_qname(_strict)/n3/expand_curie, reset, Turtle and "
-        "RDF/XML parses that bind prefixes, Turtle serialisation that generates them; Memory, SimpleMemory and Dataset; one "
+        "RDF/XML parses that bind prefixes, Turtle/N3 serialisation that generates them (output re-parsed, @prefix table "
+        "checked, `_x` vs `p_x` collisions generated); Memory, SimpleMemory and Dataset; one "
         "or two managers on the store; bind_namespaces none/core/rdflib.  non-trivial = some bind met an already bound "
         "prefix or namespace and a later qname-family call returned a prefixed name; distinct = distinct histories")
 ASSUMPTIONS = ["unicodedata.category as tabulated in Tables.lean (ASCII + 13 probes; generators draw only from these)",
@@ -62,7 +68,9 @@ NS_FAMILIES = [
 LOCALS = ["x", "y1", "_z", "1a", "-d", "a.b", "a.", "é", "%20x", "(p)", "", "b/c", "b#c", "a·b", "٣x",
           "ǅ", "x́", "中", "a€b", "ⅷ", "xʰ", "aः", "-", "b", "a", "c/d/e", "_"]
 STRICT_HEAD = {"1a": "1", "٣x": "٣", "%20x": "%20"}
-PREFIX_POOL = ["a", "b", "c", "_a", "_b", "", "ns1", "ns2", "a1", "b1", "default1", "é", "x.y", "A", "default", "_a1"]
+PREFIX_POOL = ["a", "b", "c", "_a", "_b", "", "ns1", "ns2", "a1", "b1", "default1", "é", "x.y", "A", "default", "_a1",
+               "p_a", "p_b", "pp_a"]
+DOC_LOCALS = ["x", "y1", "b", "s", "o2", "q"]
 SPECIAL_IRIS = [XMLNS + "a" + XMLNS + "b", "http://e.org/a b", "http://e.org/<x>", "", "/ab/-", "abc", XMLNS, XMLNS + "lang",
                 "http://e.org/a/b/c", "http://e.org/", "urn:x:y:z"]
 
@@ -76,7 +84,50 @@ def _w(rng, pairs):
     return pairs[-1][0]
 
 
+def _doc_triples(rng, nss, counter, n):
+    """triples for one document: fresh subjects (so the order in which a store hands them out is
+    determined by this op alone), absolute IRIs with plain ASCII local names"""
+    ts = []
+    for _ in range(n):
+        counter[0] += 1
+        s_ = rng.choice(nss) + "s" + str(counter[0])
+        p_ = rng.choice(nss) + rng.choice(DOC_LOCALS)
+        if rng.random() < 0.3:
+            ts.append([s_, p_, "lit " + str(counter[0]), "l"])
+        else:
+            ts.append([s_, p_, rng.choice(nss) + rng.choice(DOC_LOCALS), "u"])
+    return ts
+
+
+def gen_collision_case(rng):
+    """a `_x` prefix (not writable in Turtle: the serializer renames it `p_x`) together with real
+    `p_x` (and sometimes `pp_x`) prefixes for other namespaces; terms of either namespace first"""
+    cfg = _w(rng, [("memory", 3), ("simple", 4), ("dataset", 3)])
+    u = rng.choice(["_v", "_a", "_9", "_"])
+    pre = [u, "p" + u] + (["pp" + u] if rng.random() < 0.4 else []) + (["v"] if rng.random() < 0.3 else [])
+    fam = list(rng.choice(NS_FAMILIES[:2] + NS_FAMILIES[3:]))  # not the XML-namespace family, see gen_case
+    rng.shuffle(fam)
+    vn = [n for n in fam if ":" in n][: len(pre)]
+    while len(vn) < len(pre):
+        vn.append("http://x%d.example/" % len(vn))
+    binds = [["bind", 0, p, n, True, False] for p, n in zip(pre, vn)]
+    rng.shuffle(binds)
+    ops, counter = list(binds), [0]
+    for _ in range(rng.randint(1, 3)):
+        r = rng.random()
+        if r < 0.75:
+            ops.append(["serdoc", 0, rng.choice(["turtle", "turtle", "n3"]), _doc_triples(rng, vn, counter, rng.randint(2, 4))])
+        elif r < 0.9:
+            ops.append(["qname", 0, rng.choice(vn) + "x"])
+        else:
+            ops.append(["bind", 0, rng.choice(pre), rng.choice(vn), True, rng.random() < 0.5])
+    return {"cfg": cfg, "bn": rng.choice(["none", "none", "core"]), "bn1": "rdflib" if cfg == "dataset" else "none",
+            "vp": pre, "vn": vn, "ops": ops}
+
+
 def gen_case(rng, tier, i):
+    if rng.random() < 0.12:
+        return gen_collision_case(rng)
     cfg = _w(rng, [("memory", 4), ("simple", 3), ("dataset", 3)])
     bn = _w(rng, [("none", 55), ("core", 30), ("rdflib", 15)])
     two = rng.random() < 0.35
@@ -115,6 +166,10 @@ def gen_case(rng, tier, i):
         return rng.choice(vp)
 
     ops = []
+    counter = [0]
+    # document terms: absolute namespaces, not the XML namespace (split_uri gives IRIs below it a local part
+    # with arbitrary characters, e.g. `xml:#s`, which is not Turtle — a syntax matter of C03/C05, not of the prefix table)
+    absns = [n for n in vn if ":" in n and not n.startswith(XMLNS)] or ["http://e.org/"]
     n_ops = rng.randint(3, 18 if bn != "rdflib" else 9)
     for _ in range(n_ops):
         qs = [o for o in ops if o[0] in ("qname", "qstrict", "n3", "cq", "cqs", "curie")]
@@ -122,7 +177,7 @@ def gen_case(rng, tier, i):
             ops.append(list(rng.choice(qs)))  # ask again later: (q, bind, q) interleavings
             continue
         kind = _w(rng, [("bind", 38), ("sbind", 3), ("qname", 12), ("cq", 9), ("cqs", 5), ("qstrict", 3), ("curie", 7),
-                        ("n3", 6), ("expand", 4), ("reset", 3), ("parse", 4), ("parsexml", 2), ("ser", 4)])
+                        ("n3", 6), ("expand", 4), ("reset", 3), ("parse", 4), ("parsexml", 2), ("ser", 3), ("serdoc", 3)])
         if kind == "bind":
             ov, rp = _w(rng, [((True, False), 5), ((False, False), 2), ((True, True), 2), ((False, True), 2)])
             ops.append(["bind", mgr(), pre(), rng.choice(vn), ov, rp])
@@ -154,6 +209,8 @@ def gen_case(rng, tier, i):
             ops.append(["parsexml", mgr(), d])
         elif kind == "ser":
             ops.append(["ser", mgr(), rng.choice(valid), rng.choice(valid), rng.choice(valid)])
+        elif kind == "serdoc":
+            ops.append(["serdoc", mgr(), rng.choice(["turtle", "turtle", "n3"]), _doc_triples(rng, absns, counter, rng.randint(1, 4))])
     return {"cfg": cfg, "bn": bn, "bn1": bn1, "vp": vp, "vn": vn, "ops": ops}
 
 
@@ -170,6 +227,41 @@ def steps(case):
             out.append(["minit", 1, case["bn1"]])
         out.append(op)
     return out
+
+
+def _term(x, kind):
+    return Literal(x) if kind == "l" else URIRef(x)
+
+
+def doc_ctx(k):
+    return URIRef("http://graphs.example/doc%d" % k)
+
+
+def doc_order(cfg, triples, k):
+    """The order in which the store hands the document's triples to the serializer (an input of the
+    serializer, not something the property constrains).  SimpleMemory: nested dicts in insertion
+    order (subjects are fresh).  Memory: a per-context *set* — its iteration order depends on the
+    process' hash seed, so it is read off a scratch store fed the same way."""
+    if cfg == "simple":
+        out, seen = [], {}
+        for s_, p_, o_, kd in triples:
+            seen.setdefault(s_, {}).setdefault(p_, {}).setdefault((o_, kd), None)
+        for s_, pd in seen.items():
+            for p_, od in pd.items():
+                for (o_, kd) in od:
+                    out.append([s_, p_, o_, kd])
+        return out
+    g = Graph(store=Memory(), identifier=doc_ctx(k))
+    for s_, p_, o_, kd in triples:
+        g.add((URIRef(s_), URIRef(p_), _term(o_, kd)))
+    return [[str(a), str(b), str(c), "l" if isinstance(c, Literal) else "u"] for a, b, c in g.triples((None, None, None))]
+
+
+_PREFIX_LINE = re.compile(r"^\s*@prefix\s+([^\s:]*):\s*<([^>]*)>\s*\.\s*$")
+
+
+def doc_prefix_table(text):
+    return [m.groups() for m in (_PREFIX_LINE.match(l) for l in text.splitlines()) if m]
 
 
 def user_prefixes(case):
@@ -195,6 +287,9 @@ def canon(line, user):
     gen = {p: "G[" + n + "]" for p, n in lp if p not in user}
     if not gen and not out.startswith(("qn ", "s ")):
         return line
+    if out.startswith("doc "):
+        dd = [x.split(">", 1) for x in out[4:].split(" ")] if len(out) > 4 else []
+        out = "doc " + " ".join(sorted(gen.get(p, p) + ">" + n for p, n in dd))
     rn = lambda p: gen.get(p, p)
     L2 = sorted(rn(p) + ">" + n for p, n in lp)
     pp = [x.split(">", 1) for x in P[2:].split(" ")] if len(P) > 2 else []
@@ -234,6 +329,7 @@ class Impl:
         else:
             self.store = Memory() if self.cfg == "memory" else SimpleMemory()
         self.g = [None, None]
+        self.doc_problems = []
 
     def minit(self, m, bn):
         if self.cfg == "dataset":
@@ -246,6 +342,37 @@ class Impl:
         else:
             self.g[m] = Graph(store=self.store, bind_namespaces=bn)
             self.g[m].namespace_manager
+
+    def serdoc(self, op):
+        _k, m, fmt, triples = op
+        nm = self.g[m].namespace_manager
+        if self.cfg == "simple":
+            tmp = self.g[m]
+        else:  # a fresh graph (fresh per-context set) on the same store, through the same manager
+            tmp = Graph(store=self.store, identifier=doc_ctx(self.k), namespace_manager=nm)
+        ts = [(URIRef(s_), URIRef(p_), _term(o_, kd)) for s_, p_, o_, kd in triples]
+        for t in ts:
+            tmp.add(t)
+        self.doc_problems = []
+        try:
+            text = tmp.serialize(format=fmt)
+            table = doc_prefix_table(text)
+            ps = [p for p, _n in table]
+            if len(set(ps)) != len(ps):
+                self.doc_problems.append("docprefix: a prefix is declared twice in the %s output: %r" % (fmt, sorted(table)))
+            try:
+                back = set(Graph(bind_namespaces="none").parse(data=text, format=fmt))
+                if back != set(ts):
+                    self.doc_problems.append(
+                        "docroundtrip: the %s output does not read back as the graph; missing %r, unexpected %r, "
+                        "prefix table %r" % (fmt, sorted(set(ts) - back)[:2], sorted(back - set(ts))[:2], sorted(table)))
+            except Exception as e:  # noqa: BLE001
+                self.doc_problems.append("docroundtrip: the %s output cannot be parsed: %s" % (fmt, str(e)[:120]))
+            return "doc " + " ".join(sorted(p + ">" + n for p, n in table)), None
+        finally:
+            for t in ts:
+                tmp.remove(t)
+            nm.reset()
 
     def graph(self, m):
         if self.cfg == "dataset" and m == 0 and self.k % 2 == 1:
@@ -283,6 +410,8 @@ class Impl:
         if kind == "expand":
             r = self.g[0].namespace_manager.expand_curie(op[1])
             return "s " + str(r), str(r)
+        if kind == "serdoc":
+            return self.serdoc(op)
         g = self.graph(op[1])
         nm = g.namespace_manager
         if kind == "bind":
@@ -415,11 +544,15 @@ def run_impl(case):
         except Exception as e:  # noqa: BLE001
             out, res = _err(e), None
             stats["err_" + out[4:]] = stats.get("err_" + out[4:], 0) + 1
-            if kind in ("bind", "sbind", "minit", "parse", "parsexml", "reset", "ser") and not (
+            if kind in ("bind", "sbind", "minit", "parse", "parsexml", "reset", "ser", "serdoc") and not (
                     kind == "bind" and op[2] is not None and " " in op[2]):
                 viol.append(f"raises-{type(e).__name__}: step {k} {kind} raised {type(e).__name__}: {str(e)[:80]}")
         if kind not in ("bind", "sbind", "minit", "parse", "parsexml") and len(list(im.store.namespaces())) > before:
             stats["generated"] = stats.get("generated", 0) + 1
+        if kind == "serdoc":
+            viol += ["%s (step %d)" % (x, k) for x in im.doc_problems]
+            im.doc_problems = []
+            stats["serdoc_" + op[2]] = stats.get("serdoc_" + op[2], 0) + 1
         _check_bij(im, case, k, viol)
         if res is not None and kind != "expand":
             if _check_q(im, op, res, k, viol):
@@ -445,7 +578,7 @@ def _b(x):
 
 def model_lines(case):
     lines = ["new", "vocab " + " ".join(_e(p) for p in case["vp"]) + " | " + " ".join(_e(n) for n in case["vn"])]
-    for op in steps(case):
+    for idx, op in enumerate(steps(case)):
         k = op[0]
         if k == "minit":
             lines.append(f"minit {op[1]} {op[2]}")
@@ -465,6 +598,11 @@ def model_lines(case):
             lines.append(f"{k} {op[1]} " + " ".join(_e(p) + " " + _e(n) for p, n in op[2]))
         elif k == "ser":
             lines.append(f"ser {op[1]} {_e(op[2])} {_e(op[3])} {_e(op[4])}")
+        elif k == "serdoc":
+            qs = []
+            for s_, p_, o_, kd in doc_order(case["cfg"], op[3], idx + 1):
+                qs += [_e(s_), "0", _e(p_), "1"] + ([_e(o_), "0"] if kd == "u" else [])
+            lines.append(f"serdoc {op[1]} " + " ".join(qs))
         else:
             raise AssertionError(k)
     return lines
@@ -486,6 +624,9 @@ def shrink(case):
     for i, op in enumerate(ops):
         if op[0] not in ("sbind", "expand") and op[1] == 1:
             yield {**case, "ops": ops[:i] + [[op[0], 0] + op[2:]] + ops[i + 1:]}
+        if op[0] == "serdoc" and len(op[3]) > 1:
+            for j in range(len(op[3])):
+                yield {**case, "ops": ops[:i] + [[op[0], op[1], op[2], op[3][:j] + op[3][j + 1:]]] + ops[i + 1:]}
         if op[0] in ("parse", "parsexml") and len(op[2]) > 1:
             for j in range(len(op[2])):
                 if op[0] == "parsexml" and op[2][j][0] == "rdf":
